@@ -900,6 +900,16 @@ def tagged_circuit(ck: Check):
     return c, tag, nq
 
 
+def call_tree_circs(orig, circ, chunk, left):
+    """get_tree_circs with the scan direction (the pre-513afaa signature has
+    no direction parameter; it is then called as that code called it)."""
+    import inspect
+    from bqskit.passes import TreeScanningGateRemovalPass as T
+    if 'start_from_left' in inspect.signature(T.get_tree_circs).parameters:
+        return T.get_tree_circs(orig, circ, chunk, left)
+    return T.get_tree_circs(orig, circ, chunk)
+
+
 def tree_circs_oracle(c: Circuit, tag: dict, left: bool, depth: int):
     """Documented contract of TreeScanningGateRemovalPass.get_tree_circs:
     the returned circuits are exactly `c` minus every non-empty subset of the
@@ -913,7 +923,7 @@ def tree_circs_oracle(c: Circuit, tag: dict, left: bool, depth: int):
     want = sorted(sorted(set(allt) - set(sub)) for r in range(1, len(ct) + 1)
                   for sub in it.combinations(ct, r))
     try:
-        circs = T.get_tree_circs(c.num_cycles, c.copy(), chunk)
+        circs = call_tree_circs(c.num_cycles, c.copy(), chunk, left)
     except Exception as e:
         return (f'get_tree_circs raised {type(e).__name__}: {e} for the '
                 f'chunk {ct}')
@@ -960,12 +970,13 @@ def scripted_tie(ck: Check, n: int):
                 chunk = allops[:dpt]
                 try:
                     real = ' ; '.join(' '.join(map(str, sorted(
-                        tag[o.gate] for o in x))) for x in _T.get_tree_circs(
-                            c.num_cycles, c.copy(), chunk))
+                        tag[o.gate] for o in x))) for x in call_tree_circs(
+                            c.num_cycles, c.copy(), chunk, lft))
                 except IndexError:
                     real = 'raise'
                 gtc_lines.append(
-                    f'gtc {c.num_cycles} | {grid} | ' + ' '.join(
+                    f'gtc {"left" if lft else "right"} {c.num_cycles} | '
+                    f'{grid} | ' + ' '.join(
                         f'{cy_}:{o.location[0]}' for cy_, o in chunk))
                 gtc_ctx.append((real, c, lft, dpt))
         seed, m = ck.rng.randrange(50), ck.rng.choice([2, 3, 5, 7])
@@ -1452,12 +1463,81 @@ def analytic_cases(ck: Check, n: int, thorough: bool):
         run('GeneralSQDecomposition', P.GeneralSQDecomposition(), ('qubit',),
             c, tol=1e-7, post=lambda o: None if o.num_operations == 1
             and general_sq(o[0, 0].gate) else 'not one general gate')
-    q3 = Circuit(1, [3])
-    q3.append_gate(ConstantUnitaryGate(L.rand_unitary(nprng, 3), [3]), 0)
-    d3 = PassData(q3)
-    d3.gate_set = GateSet([U8Gate(), CSUMGate()])
-    run('GeneralSQDecomposition', P.GeneralSQDecomposition(), ('qutrit',),
-        q3, d3)
+    # ... and qutrits (the design-time suspect; runs since d7fbe96): generic
+    # unitaries, products, permutations, and the diagonal ones on which
+    # U8Gate.calc_params is singular
+    from bqskit.ir.gates import U8Gate as _U8
+    for i in range(max(8, n)):
+        mode = i % 4
+        if mode == 0:
+            Us = [L.rand_unitary(nprng, 3)]
+        elif mode == 1:
+            Us = [L.rand_unitary(nprng, 3) for _ in range(ck.rng.randrange(
+                2, 4))]
+        elif mode == 2:
+            perm = ck.rng.sample(range(3), 3)
+            Us = [np.eye(3)[perm] * np.exp(1j * nprng.uniform(-3, 3, 3))]
+        else:
+            Us = [np.diag(np.exp(1j * np.array(
+                [ck.rng.choice([0.0, math.pi / 2, ck.rng.uniform(-3, 3)])
+                 for _ in range(3)])))]
+        q3 = Circuit(1, [3])
+        for U in Us:
+            q3.append_gate(ConstantUnitaryGate(U, [3]), 0)
+        d3 = PassData(q3)
+        d3.gate_set = GateSet([_U8(), CSUMGate()])
+        ck.count(('analytic', 'GeneralSQDecomposition', 'qutrit', mode, i))
+        ck.bump('analytic_cases', 'GeneralSQDecomposition:qutrit')
+        try:
+            out, _ = run_pass(P.GeneralSQDecomposition(), q3, d3)
+        except Exception as e:
+            msg = str(e)
+            ck.violation(
+                f'raises:GeneralSQDecomposition:{type(e).__name__}'
+                + (':radix-mismatch' if 'radix mismatch' in msg else ''),
+                f'GeneralSQDecomposition on a single-qutrit circuit raised '
+                f'{type(e).__name__}: {msg[:200]}',
+                {'pass': 'GeneralSQDecomposition', 'circuit': circ_desc(q3)},
+                found_input=True)
+            continue
+        nan = any(x != x for o in out for x in o.params)
+        U3x3 = q3.get_unitary().numpy
+        # U8Gate's chart is singular where an entry of the unitary vanishes
+        # (calc_params divides by cos/sin of angles that are then 0)
+        singular = bool(np.min(abs(U3x3)) < 1e-9)
+        dd = None if nan else phase_dist(out.get_unitary().numpy, U3x3)
+        ok = out.num_operations == 1 and isinstance(out[0, 0].gate, _U8) \
+            and tuple(out.radixes) == (3,)
+        if nan or dd > 1e-6:
+            ck.violation(
+                'invalid-output:GeneralSQDecomposition:U8-singular-point'
+                if singular else 'unitary:GeneralSQDecomposition:qutrit',
+                'GeneralSQDecomposition on a qutrit returns a U8Gate with '
+                + ('NaN parameters' if nan else f'distance {dd:.3g} from the '
+                   'input') + (' (unitary with a vanishing entry: singular '
+                               'point of U8Gate.calc_params)' if singular
+                               else ''),
+                {'pass': 'GeneralSQDecomposition', 'circuit': circ_desc(q3),
+                 'unitary': [[[float(z.real), float(z.imag)] for z in row]
+                             for row in U3x3]},
+                found_input=True)
+        elif not ok:
+            ck.violation(
+                'postcondition:GeneralSQDecomposition:qutrit',
+                f'GeneralSQDecomposition on a qutrit: output '
+                f'{[str(o) for o in out]}',
+                {'pass': 'GeneralSQDecomposition', 'circuit': circ_desc(q3)},
+                found_input=True)
+    # no general gate of the radix in the gate set: documented ValueError
+    q4 = Circuit(1, [4])
+    d4 = PassData(q4)
+    try:
+        run_pass(P.GeneralSQDecomposition(), q4, d4)
+        ck.violation('domain:GeneralSQDecomposition', 'accepts a radix '
+                     'without a general gate in the gate set',
+                     {'radixes': [4]}, found_input=True)
+    except ValueError:
+        pass
 
 
 # ==========================================================================
@@ -1483,6 +1563,10 @@ def runtime_lock(wait_s: float):
 
 
 def runtime_sample(ck: Check, thorough: bool):
+    if os.environ.get('C10_SKIP_RUNTIME'):
+        # development aid for seeded-change runs; never set by ./check itself
+        ck.coverage['runtime_sample'] = 'skipped: C10_SKIP_RUNTIME set'
+        return
     import bqskit.passes as P
     from bqskit.compiler import Compiler
     nprng = np.random.RandomState(ck.rng.randrange(2 ** 31))
@@ -1504,9 +1588,19 @@ def runtime_sample(ck: Check, thorough: bool):
                   L.rand_circuit(ck.rng, 2, 3), 1e-8),
                  ('CNOTToCZPass', P.CNOTToCZPass(),
                   L.rand_circuit(ck.rng, 3, 6), 0.0)]
-    with runtime_lock(120 if thorough else 10) as got:
+    # (development machines are shared: wait for the machine-wide lock rather
+    #  than skipping silently; on an idle machine it is free at once)
+    t_lock = time.time()
+    # C10_LOCK_WAIT_S: development override of the waiting time
+    wait_s = float(os.environ.get('C10_LOCK_WAIT_S',
+                                  1800 if thorough else 600))
+    with runtime_lock(wait_s) as got:
+        ck.coverage['runtime_lock_wait_s'] = round(time.time() - t_lock, 1)
         if not got:
-            ck.coverage['runtime_sample'] = 'skipped: runtime lock busy'
+            ck.coverage['runtime_sample'] = (
+                'skipped: runtime lock busy for more than '
+                f'{wait_s:g} s')
+            print('C10: real-Compiler sample skipped, runtime lock busy')
             return
         t0 = time.time()
         try:
